@@ -144,6 +144,12 @@ def _check_queries(r, traj, queries, inside_counter, hit=None):
             got = H.find_index_of_point_for_distance(hit, val, u)
             if got != exp:
                 r.bad("C20:helpers.find_index_of_point_for_distance", f"query {val!r} {q['unit']}: got {got}, sequential scan {exp}", q=q)
+            if q["unit"] == "Meter":
+                # the unit argument left out: the documented default is metres
+                got_d = H.find_index_of_point_for_distance(hit, val)
+                tt_d = H.find_time_for_distance_in_shot(hit, val)
+                if got_d != exp or not (tt_d == traj[exp].time if exp >= 0 else (isinstance(tt_d, float) and math.isnan(tt_d))):
+                    r.bad("C20:helpers:default-distance-unit", f"query {val!r} with the unit left out: index {got_d}, time {tt_d!r}; sequential scan in metres {exp}", q=q)
             tt = H.find_time_for_distance_in_shot(hit, val, u)
             if exp < 0:
                 if not (isinstance(tt, float) and math.isnan(tt)):
@@ -172,6 +178,9 @@ def _check_queries(r, traj, queries, inside_counter, hit=None):
             got = H.find_index_for_time_point(hit, tq, True)
             if got != exp:
                 r.bad("C20:helpers.find_index_for_time_point:strict", f"time {tq!r}: got {got}, sequential scan {exp}", q=q)
+            got_d = H.find_index_for_time_point(hit, tq)     # mode left out: the documented default is "first row at or after"
+            if got_d != exp:
+                r.bad("C20:helpers.find_index_for_time_point:default-mode", f"time {tq!r} with the mode left out: got {got_d}, sequential scan {exp}", q=q)
             if 0 < exp < n:
                 inside_counter[0] += 1
         elif k == "time-near":
@@ -189,6 +198,10 @@ def _check_queries(r, traj, queries, inside_counter, hit=None):
                 continue
             diffs = [abs(row.time - tq) for row in traj]
             m = min(diffs)
+            # the deviation left out: the documented default is 1 s
+            got_d = H.find_index_for_time_point(hit, tq, False)
+            if (got_d == -1) != (m > 1.0) or (got_d != -1 and (not (0 <= got_d < n) or diffs[got_d] != m)):
+                r.bad("C20:nearest-time:default-deviation", f"time {tq!r} with the deviation left out (1 s): got {got_d}, nearest row is {m!r} s away", q=q)
             if m > dev:
                 if got != -1:
                     r.bad("C20:nearest-time:deviation", f"time {tq!r} dev {dev!r}: nearest is {m!r} away but got {got}", q=q)
